@@ -63,7 +63,8 @@ def generate(tier, seed):
             steps = []
             for o in h:
                 steps += [o] + multi_observe()
-            steps += ["?gp:p:p2", "?gp:g:g2", "?gf:p:p2:0:ops", "?vl:g:g2:1"]
+            steps += ["?gp:p:p2", "?gp:g:g2", "?gf:p:p2:0:ops", "?vl:g:g2:1", "?hp:p:p2:%s" % enc_rule(MP[1]), "?hp:g:g2:%s" % enc_rule(MG2[0]),
+                      "?vl:p:p2:0", "?gf:g:g2:1:ops", "?gf:p:p:0:~,data1", "?hp:p:p:%s" % enc_rule(MP[2]), "?gp:p:p", "?gp:g:g"]
             cases.append(case("eng", sp, adapter_M(multi_lines()), "-", steps))
             dist["multi_type"] += 1
     return {
